@@ -5,7 +5,7 @@ CONSTANT MaxLabels = 3
 CONSTANT MaxCount = 3
 CONSTANT MaxO2 = 1
 CONSTANT O2Twice = FALSE
-CONSTANT StackFlagsFull = FALSE
+CONSTANT StackFlagsFull = "few"
 INVARIANT EdgeExclusive
 INVARIANT PairMaximal
 INVARIANT PairSound
